@@ -84,3 +84,57 @@ package getty
 //@   ensures heartbeat-no-body: (m.Type == 3 || m.Type == 4) ==> !called("(*CodecManager).Encode#1")
 //@   ensures body-encoded: m.Type != 3 && m.Type != 4 ==> called("(*CodecManager).Encode#1")
 //@   nopanic
+
+// ---- C15 / C14: the sending side
+
+// Ghost record of frames handed to GettyRemoting.SendAsync.
+//@ ghost var sent int
+//@ ghost var sent_id int
+//@ ghost var sent_type int
+//@ ghost var sent_codec int
+//@ ghost var sent_body any
+//@ ghost var sent_err_nil bool
+
+// Lazily initialised singleton behind sync.Once: trusted (body not verified).
+//@ func GetGettyRemotingClient
+//@   trusted
+//@   ensures result != nil && result == gettyRemotingClient && result.gettyRemoting != nil
+
+// Boundary for C15: the transport below SendAsync is the environment (may fail arbitrarily); the frame
+// handed over is recorded. SendAsync itself is verified under C14.
+//@ func (*GettyRemoting).SendAsync
+//@   trusted
+//@   modifies ghost.sent, ghost.sent_id, ghost.sent_type, ghost.sent_codec, ghost.sent_body, ghost.sent_err_nil
+//@   ensures ghost.sent == old(ghost.sent) + 1 && ghost.sent_id == msg.ID && ghost.sent_type == msg.Type && ghost.sent_codec == msg.Codec && ghost.sent_body == msg.Body
+//@   ensures ghost.sent_err_nil == (result == nil)
+
+//@ func (*GettyRemotingClient).SendAsyncResponse
+//@   prop C15
+//@   requires client != nil && client.gettyRemoting != nil
+//@   modifies ghost.sent, ghost.sent_id, ghost.sent_type, ghost.sent_codec, ghost.sent_body, ghost.sent_err_nil
+//@   ensures id: ghost.sent == old(ghost.sent) + 1 && ghost.sent_id == msgID && ghost.sent_type == 1 && ghost.sent_codec == 1 && ghost.sent_body == msg
+//@   ensures result-is-transport: ghost.sent_err_nil == (result == nil)
+//@   ensures frame: wrote_nothing()
+
+// Dispatch of incoming packages to processors (C15).
+//@ ghost var processed int
+//@ ghost var proc_self any
+//@ ghost var proc_id int
+//@ ghost var proc_body any
+//@ iface (processor.RemotingProcessor).Process
+//@   modifies ghost.processed, ghost.proc_self, ghost.proc_id, ghost.proc_body
+//@   ensures ghost.processed == old(ghost.processed) + 1 && ghost.proc_self == self && ghost.proc_id == rpcMessage.ID && ghost.proc_body == rpcMessage.Body
+
+//@ func (*gettyClientHandler).OnMessage
+//@   prop C15
+//@   requires g != nil && isT(pkg, message.RpcMessage)
+//@   let m := pkg.(message.RpcMessage)
+//@   requires m.Body != nil && implements(m.Body, message.MessageTypeAware) && ghost.processed == 0
+//@   let p := g.processorMap[ufi("typecode_of", m.Body)]
+//@   ensures dispatch: p != nil ==> ghost.processed == 1 && ghost.proc_self == p && ghost.proc_id == m.ID && ghost.proc_body == m.Body
+//@   ensures no-processor: p == nil ==> ghost.processed == 0
+
+//@ func (*gettyClientHandler).RegisterProcessor
+//@   prop C15
+//@   requires g != nil && g.processorMap != nil
+//@   ensures stored: processor != nil ==> g.processorMap[msgType] == processor
